@@ -23,6 +23,10 @@ var raceDeciding = map[string]bool{
 // properties that promise "error, never a panic / does not crash".
 var crashDeciding = map[string]bool{
 	"C01": true, "C11": true, "C12": true, "C13": true, "C14": true, "C18": true, "C19": true,
+	// store properties: a fatal fault inside the store's own code while it is
+	// driven with valid input (e.g. a write into memory the database owns) means
+	// the store cannot deliver what the property promises
+	"C02": true, "C03": true, "C05": true, "C17": true,
 }
 
 var frameRe = regexp.MustCompile(`^\s+([A-Za-z0-9_./\-]+(?:\.\([^)]*\))?[A-Za-z0-9_.\-\[\]·]*)\(`)
@@ -252,6 +256,13 @@ func crashPost(id, tier, logPath string) int {
 		fmt.Printf("VIOLATION property=%s replay=%s\n", id, path)
 		fmt.Printf("  what: process crashed in %s: %s\n", first, what)
 		return mon.ExitViolation
+	}
+	// violations the monitor had already reported before the crash stand
+	for _, l := range lines[:start] {
+		if strings.HasPrefix(l, "VIOLATION property="+id+" ") {
+			fmt.Printf("note: child of %s crashed afterwards in %q: %s\n", id, first, what)
+			return mon.ExitViolation
+		}
 	}
 	fmt.Printf("INCONCLUSIVE child of %s crashed in %q: %s\n", id, first, what)
 	return mon.ExitInconclusive
